@@ -1,7 +1,10 @@
 ------------------------------- MODULE Guards -------------------------------
 (***************************************************************************)
 (* Unsupported requests fail loudly (C20).                                 *)
-(* A request = [backend, call, solver, vec, delay, sparse, defect].        *)
+(* A request = [backend, call, solver, vec, delay, sparse, defect, form]   *)
+(* (form: node-and-edge circuit or PopulationTemplate / Connectivity;     *)
+(*  delay "mixed" = a discrete delay processed before a distributed one,  *)
+(*  "mixed2" = the other order).                                          *)
 (* Layer M: MustRaise(request) / MustWarn(request) as the property states  *)
 (*   them (support matrix + malformed models).                             *)
 (* Layer P: the guards in the order the code runs them (input wiring,      *)
@@ -25,7 +28,7 @@ Supported(b) == CASE b = "default" -> {"euler", "heun", "scipy"}
                   [] b = "fortran" -> {"euler", "heun", "scipy"}
 Adaptive(s) == s \notin {"euler", "heun"}
 ImmutableArrays(b) == b = "jax"
-RingBuffer(r) == r.delay \in {"edge", "mixed"} /\ ~Adaptive(r.solver)        \* discrete-delay ring buffer is emitted
+RingBuffer(r) == r.delay \in {"edge", "mixed", "mixed2"} /\ ~Adaptive(r.solver)        \* discrete-delay ring buffer is emitted
 RaiseDefects == {"reserved_name", "undeclared_var", "value_missing_op", "value_missing_op_all", "edge_missing_source_node", "edge_missing_source_var",
                  "edge_missing_target_var", "output_missing_node", "output_missing_var", "two_outputs", "cyclic_ops"}
 WarnDefects == {"input_missing_var", "input_missing_node", "update_missing_var", "nodevalue_missing_node"}
@@ -68,10 +71,12 @@ Export == pc \in {"returned", "raised"} =>
             PrintT(<<"REQ", ToJson([rq |-> rq, mustRaise |-> MustRaise(rq), mustWarn |-> MustWarn(rq), outcomeP |-> pc])>>)
 
 (* request generators *)
-Rq(b, c, s, v, d, sp, df) == [backend |-> b, call |-> c, solver |-> s, vec |-> v, delay |-> d, sparse |-> sp, defect |-> df]
+Rq(b, c, s, v, d, sp, df) == [backend |-> b, call |-> c, solver |-> s, vec |-> v, delay |-> d, sparse |-> sp, defect |-> df, form |-> "nodes"]
+RqPop(b, c, s, d) == [backend |-> b, call |-> c, solver |-> s, vec |-> TRUE, delay |-> d, sparse |-> FALSE, defect |-> "none", form |-> "pop"]
 Matrix(bs) ==
   { Rq(b, "run", s, v, d, FALSE, "none") : b \in bs, s \in {"euler", "heun", "scipy", "diffrax", "rk99"}, v \in BOOLEAN,
-                                           d \in {"none", "edge", "past", "gamma", "mixed"} }
+                                           d \in {"none", "edge", "past", "gamma", "mixed", "mixed2"} }
+  \cup { RqPop(b, c, s, d) : b \in bs \ {"fortran"}, c \in {"run", "func"}, s \in {"euler", "heun", "scipy"}, d \in {"edge", "gamma", "mixed", "mixed2"} }
   \cup { Rq(b, "func", s, v, d, FALSE, "none") : b \in bs, s \in {"euler", "scipy"}, v \in BOOLEAN, d \in {"none", "edge", "past", "gamma", "mixed"} }
   \cup { Rq(b, "jac", s, v, d, sp, "none") : b \in bs, s \in {"euler", "scipy"}, v \in {FALSE}, d \in {"none", "past"}, sp \in BOOLEAN }
 Malformed == { Rq("default", c, "euler", v, "none", FALSE, df) : c \in {"run", "func"}, v \in BOOLEAN, df \in RaiseDefects \cup WarnDefects }
